@@ -69,6 +69,7 @@ pub fn fuzz_entry(id: &str, lane: &str) -> Option<&'static crate::engine::runner
         ("C15", "histogram-storage") => Some(&c15::case_hist),
         ("C15", "matchers") => Some(&c15::case_match),
         ("C15", "rolling-summary") => Some(&c15::case_roll),
+        ("C15", "quantile-configs") => Some(&c15::case_quantile_cfg),
         ("C16", "sequential") => Some(&c16::case_seq),
         ("C16", "concurrent") => Some(&c16::case_conc),
         ("C17", "span-trees") => Some(&c17::case_spans),
